@@ -197,6 +197,10 @@ Audit(s) == WithReply(s, AuditOps(s))
 
 Emit == PrintT(ToJson([h |-> hist',
                        a |-> IF hist'[Len(hist')].op.op \in Mutating THEN Audit(st') ELSE <<>>]))
+\* for crash-point enumeration (C15): the history, the audit of the state before
+\* the last step and the audit of the state after it
+EmitCrash == hist'[Len(hist')].op.op \in Mutating =>
+               PrintT(ToJson([h |-> hist', a0 |-> Audit(st), a |-> Audit(st')]))
 \* for walk recording: the history and the projection of the state it reaches,
 \* one line per distinct state (printed when the state is first reached)
 EmitState == PrintT(ToJson([h |-> hist, fin |-> Snap(st)]))      \* an INVARIANT: once per distinct state
